@@ -184,7 +184,16 @@ func eRealNetLine(r *rng) string {
 }
 
 func eGenParseText(r *rng) string {
-	switch r.n(20) {
+	switch r.n(23) {
+	case 20:
+		// R2: escaped characters in the PATTERN, mostly without a modifier list
+		return r2EscNetText(r)
+	case 21:
+		// R2: stray commas in the modifier list of a line without a backslash
+		return r2StrayCommaText(r)
+	case 22:
+		// R2: a `#` followed by a marker-like byte in a network rule
+		return r2NearCosmeticLine(r)
 	case 0, 1, 2, 3, 4, 5, 6:
 		return eGenNetRuleText(r)
 	case 7, 8, 9, 10:
